@@ -365,7 +365,21 @@ impl G<'_> {
                 _ => T::Dot,
             };
         }
-        match self.rng.usize(43) {
+        match self.rng.usize(47) {
+            43 | 44 => {
+                // a count that is itself a stream with effects: `limit((1, hazard); F)`
+                let c = if self.rng.chance(1, 2) { self.mk() } else { T::Lit(V::Int(self.rng.range(0, 3))) };
+                let h = self.hazard();
+                let f = self.stream(d - 1);
+                let fh = self.hazard();
+                T::First(bx(T::LimitZ(bx(T::Comma(bx(c), bx(h))), bx(T::Comma(bx(f), bx(fh))))))
+            }
+            45 => {
+                let c = if self.rng.chance(1, 2) { self.mk() } else { T::Lit(V::Int(self.rng.range(0, 2))) };
+                let h = self.hazard();
+                T::Limit(self.rng.range(1, 3), bx(T::RangeZ(bx(T::Comma(bx(c), bx(h))), self.rng.range(2, 5))))
+            }
+            46 => T::Last(bx(self.stream(d - 1))),
             41 | 42 => {
                 // an outer label left from inside an inner label that is bound afresh on every round
                 // of a recursive definition: `break $a` must reach `$a` however often the
@@ -824,7 +838,8 @@ fn well_scoped(t: &T, vars: &mut Vec<String>, labels: &mut Vec<String>) -> bool 
         T::TryQ(a) | T::First(a) | T::Limit(_, a) | T::Skip(_, a) | T::Nth(_, a) | T::IsEmpty(a) | T::Any(a, _)
         | T::All(a, _) | T::Arr(a) | T::Rec(a) | T::Repeat(a) | T::Recurse(a) | T::While(_, a) | T::Until(_, a)
         | T::SliceTo(_, a) | T::IndexAt(a) | T::PathOf(a) | T::IdxZ(a) | T::Interp(a) | T::ObjVal(a) | T::AddR(a, _)
-        | T::AddL(_, a) | T::EqLit(a, _) => well_scoped(a, vars, labels),
+        | T::AddL(_, a) | T::EqLit(a, _) | T::RangeZ(a, _) | T::Last(a) => well_scoped(a, vars, labels),
+        T::LimitZ(z, a) => well_scoped(z, vars, labels) && well_scoped(a, vars, labels),
         _ => true,
     }
 }
@@ -1104,7 +1119,7 @@ pub fn check(cfg: &Cfg) -> Result<i32, Harness> {
         coverage: json!({
             "evaluations": evaluations,
             "distinct_nontrivial": shapes.len(),
-            "rule": "each case is a generated stream term (comma, pipe, bindings, if, //, try/catch, ?, label/break, first, limit, skip, nth, isempty, any, all, foreach/reduce over finite and endless sources incl. `inputs`, array collection, recursive definitions, repeat, recurse, while, until, range with zero step) whose sub-terms carry observable effects: probe(i) markers, bombs, errors, `input`/`inputs` consumption, endless probed loops; it is compiled by the tree's compiler with two extra natives (probe, bomb), run by the tree's interpreter on a logged input stream (ending, failing or endless) and consumed by a consumer that pulls exactly k outputs, for every k up to min(#outputs, 10), plus one pull-k-then-drop run. Oracle: the multiset of effects logged when output k is delivered is contained in the effects the definitional left-to-right trace (a separate lazy evaluator, model/lazy.rs) places before output k; no Bomb, no Fuel; dropping logs nothing. A case whose output VALUES differ from the model is inconclusive (C01 is not claimed) and skipped. distinct = distinct term shapes (constants erased) among non-trivial cases; non-trivial = at least one effect of the definitional trace lies after an output at which the stream was cut.",
+            "rule": "each case is a generated stream term (comma, pipe, bindings, if, //, try/catch, ?, label/break, first, limit, skip, nth, isempty, any, all, foreach/reduce over finite and endless sources incl. `inputs`, array collection, recursive definitions, repeat, recurse, while, until, range with zero step) whose sub-terms carry observable effects: probe(i) markers, bombs, errors, `input`/`inputs` consumption, endless probed loops; it is compiled by the tree's compiler with two extra natives (probe, bomb), run by the tree's interpreter on a logged input stream (ending, failing or endless) and consumed by a consumer that pulls exactly k outputs, for every k up to min(#outputs, 10), plus one pull-k-then-drop run. Oracle: the multiset of effects logged when output k is delivered is contained in the effects the definitional left-to-right trace (a separate lazy evaluator, model/lazy.rs) places before output k; no Bomb, no Fuel; dropping logs nothing. A case whose output VALUES differ from the model is inconclusive (C01 is not claimed) and skipped. distinct = distinct term shapes (constants erased) among non-trivial cases; non-trivial = at least one effect of the definitional trace lies after an output at which the stream was cut. Also generated: value constructors over streams (string interpolation, object construction, arithmetic and comparison with a stream operand), labels bound inside the body of recurse/while/until with a break to a label outside the recursion, stream-valued arguments of natives (limit((Z); F), range((Z); n)), last(F). Programs that index with a value that is no integer are not modelled and counted inconclusive.",
             "cuts_checked": tally.get("cuts_checked"),
             "inconclusive": inconclusive,
             "inconclusive_reasons": pick("inconclusive:"),
@@ -1158,6 +1173,8 @@ fn term_tags(t: &T) -> BTreeSet<&'static str> {
             T::Idx(_) | T::Iter | T::Pass(_) => "leaf",
             T::IdxZ(_) => "path_position",
             T::Interp(_) | T::ObjVal(_) | T::AddR(..) | T::AddL(..) | T::EqLit(..) => "value_constructor",
+            T::LimitZ(..) | T::RangeZ(..) => "stream_valued_argument",
+            T::Last(_) => "last",
         });
         match t {
             T::Comma(a, b) | T::Pipe(a, b) | T::Alt(a, b) | T::Try(a, b) | T::As(a, _, b) | T::If(_, a, b) => {
@@ -1167,7 +1184,11 @@ fn term_tags(t: &T) -> BTreeSet<&'static str> {
             T::TryQ(a) | T::Label(_, a) | T::First(a) | T::Limit(_, a) | T::Skip(_, a) | T::Nth(_, a) | T::IsEmpty(a)
             | T::Any(a, _) | T::All(a, _) | T::Arr(a) | T::Rec(a) | T::Repeat(a) | T::Recurse(a) | T::While(_, a)
             | T::Until(_, a) | T::SliceTo(_, a) | T::IndexAt(a) | T::PathOf(a) | T::IdxZ(a) | T::Interp(a) | T::ObjVal(a)
-            | T::AddR(a, _) | T::AddL(_, a) | T::EqLit(a, _) => go(a, s),
+            | T::AddR(a, _) | T::AddL(_, a) | T::EqLit(a, _) | T::RangeZ(a, _) | T::Last(a) => go(a, s),
+            T::LimitZ(z, a) => {
+                go(z, s);
+                go(a, s)
+            }
             T::Foreach(a, _, _, u, e) => {
                 go(a, s);
                 go(u, s);
